@@ -289,11 +289,11 @@ pub fn render(f: &Facts, o: &JaxOpts) -> Rendered {
         } else if filled {
             // the rotation starts at a position that depends on the fact set, so that small files reach every value
             let k = k + f.anns.len();
-            // HP:0040285 = "Excluded", HP:0040280 = "Obligate", 0/0 and 0/n: none of them is a NOT qualifier
-            let freq = ["0/12", "HP:0040285", "1/1", "HP:0040283", "0/0", "33%", "0/1", "HP:0040280", "7/12", "0%", "1/2", ""][k % 12];
+            // HP:0040285 = "Excluded", HP:0040280 = "Obligate", 0/n and 0%: none of them is a NOT qualifier (all values are ones the HPOA format allows in their column)
+            let freq = ["0/12", "HP:0040285", "1/1", "HP:0040283", "3/3", "33%", "0/1", "HP:0040280", "7/12", "0%", "1/2", ""][k % 12];
             let evidence = ["IEA", "PCS", "TAS"][k % 3];
             let onset = ["HP:0003577", "", "HP:0003593"][k % 3];
-            let sex = ["MALE", "", "FEMALE", "NOT"][k % 4];
+            let sex = ["MALE", "", "FEMALE", ""][k % 4];
             let aspect = ["P", "I", "C", "M", "H"][k % 5];
             format!("{db}:{id}\t{name}\t{qual}\t{}\tPMID:{}\t{evidence}\t{onset}\t{freq}\t{sex}\tHP:0012828\t{aspect}\tHPO:probinson[2021-06-21];HPO:skoehler[2014-11-27]\n", hp(term), 1000 + k)
         } else {
